@@ -2,6 +2,7 @@
 CONSTANTS Peers <- EnvPeers
           Sizes <- EnvSizes
           Eps <- EnvEps
+          Fmts <- EnvFmts
           Mutant <- EnvMutant
           Emit <- EnvEmit
           MaxDepth <- EnvDepth
